@@ -216,4 +216,50 @@ theorem parseErrorError_eq (n : Int) (h : -2147483648 ≤ n ∧ n ≤ 2147483647
   unfold GoSrc.Small.parseErrorError
   simp [fieldNumberString_decimal n h]
 
+
+/-! ### sequences of insertions on the translated `Small.Set` -/
+
+/-- run a sequence of insertions through the translated Go code -/
+def srcRun : Small → List Int → Res (Small × List Bool)
+  | s, [] => .ok (s, [])
+  | s, x :: xs => do
+    let (s, b) ← GoSrc.Small.bitsetSet x s
+    let (s, bs) ← srcRun s xs
+    return (s, b :: bs)
+
+theorem set_length (s : Small) (x : Int) (hx : x < 2147483648) (hl : s.rest.length ≤ 33554432)
+    (s' : Small) (b : Bool) (h : Bitset.set s x = .ok (s', b)) : s'.rest.length ≤ 33554432 := by
+  unfold Bitset.set at h
+  split at h
+  · cases h; exact hl
+  · split at h
+    · cases h; exact hl
+    · simp only [] at h
+      split at h
+      · cases h
+      · cases h
+        simp only [List.length_set]
+        split
+        · simp only [List.length_append, List.length_replicate]; omega
+        · exact hl
+
+theorem srcRun_eq : ∀ (xs : List Int) (s : Small), (∀ x ∈ xs, -2147483648 ≤ x ∧ x < 2147483648) →
+    s.rest.length ≤ 33554432 → srcRun s xs = Bitset.run s xs := by
+  intro xs
+  induction xs with
+  | nil => intro s _ _; rfl
+  | cons x xs ih =>
+    intro s hx hl
+    have hx0 := hx x (by simp)
+    unfold srcRun Bitset.run
+    rw [bitsetSet_eq s x hx0.1 hx0.2 (by omega)]
+    cases h : Bitset.set s x with
+    | ok r =>
+      obtain ⟨s', b⟩ := r
+      have hl' := set_length s x hx0.2 hl s' b h
+      simp only [Res.bind_ok, bind, Res.bind]
+      rw [ih s' (fun y hy => hx y (by simp [hy])) hl']
+    | panic w => rfl
+    | outOfFuel => rfl
+
 end Pico.GoTie.S
